@@ -14,5 +14,5 @@ partial def main : IO Unit := do
       let (sess', r) := Yuiv.Drv.C05.handleSt sess t
       stdout.putStrLn r
       go sess'
-  go []
+  go default
   stdout.flush
